@@ -150,7 +150,7 @@ class Unit:
         return repo_path(node.get("_file")), node.get("_line", 0)
 
 
-def load_unit(name, path, meta=None, defines=()):
+def load_unit(name, path, meta=None, defines=(), _align=True):
     cmd = ["clang", "-std=c99", "-nostdinc", "-I", STUBS, "-fsyntax-only", "-Wno-everything",
            "-Xclang", "-ast-dump=json"] + ["-D%s" % d for d in defines] + [path]
     proc = subprocess.run(cmd, capture_output=True)
@@ -158,7 +158,11 @@ def load_unit(name, path, meta=None, defines=()):
         raise AnalysisError("clang failed on %s: %s" % (name, proc.stderr.decode(errors="replace").strip().splitlines()[:3]))
     ast = json.loads(proc.stdout)
     annotate(ast)
-    return Unit(name, path, ast, meta or {})
+    unit = Unit(name, path, ast, meta or {})
+    if _align:
+        from . import calpha
+        unit.aligned = calpha.align(unit)
+    return unit
 
 
 def walk(node):
